@@ -54,7 +54,7 @@ struct Pending { int idx; int due; ContextSptr ctx; };
 struct World {
   Loop *loop = nullptr; Server *srv = nullptr; int cfd = -1; std::string sock_path;
   int pass_no = 0;
-  std::vector<int> kinds, delays;             // per request issued by the client (index = request number)
+  std::vector<int> segs; std::vector<int> kinds, delays;             // per request issued by the client (index = request number)
   std::vector<bool> sent;                     // the client has issued write() for all of its bytes (a refused write is the server's doing)
   std::string out;                            // client-side bytes not yet written (glued requests)
   std::vector<int> out_reqs;                  // requests contained in `out`
@@ -174,7 +174,7 @@ struct World {
   void apply(const Op &o) {
     if (o.k == PASS) { pass(); return; }
     if (o.k == RAW) { out += kRawText[o.kind]; flush_out(); malformed_sent = true; pass(); return; }
-    int i = (int)kinds.size(); kinds.push_back(o.kind); delays.push_back(o.delay); sent.push_back(false);
+    int i = (int)kinds.size(); kinds.push_back(o.kind); delays.push_back(o.delay); sent.push_back(false); segs.push_back(o.seg);
     std::string t = req_text(i, o.kind);
     if (o.seg == GLUED) { out += t; out_reqs.push_back(i); return; }
     if (o.seg == ALONE) { out += t; out_reqs.push_back(i); flush_out(); pass(); return; }
@@ -219,6 +219,12 @@ struct World {
     if (g_transport == "tcp" && c >= 0 && !eof) { struct pollfd p = {cfd, POLLIN, 0}; poll(&p, 1, 200); client_read(); }
     check_stream(true); if (!viol.empty()) return;
     if (malformed_sent) return;      // after a malformed request only crash/hang freedom and the stream-level rules (no duplicate, order, nothing after close) are judged
+    // a request that never reaches the handler (connection dropped by a parse failure, ...) is the root cause of whatever else is missing: report it first
+    for (size_t i = 0; i < kinds.size(); i++) {
+      if (!sent[i] || (c >= 0 && (int)i > c)) continue;
+      bool got = false; for (int d : delivered) if (d == (int)i) got = true;
+      if (!got) { viol = std::string(segs[i] == CUTM ? "request-cut-inside-method-token-never-handed-to-handler r" : "request-never-handed-to-handler r") + std::to_string(i) + (eof ? " (connection closed by the server)" : ""); return; }
+    }
     for (int i : delivered) {
       bool answered = i < (int)tags.size();
       if (c >= 0 && i > c) { if (!answered) { viol = "requests-after-connection-close-are-handed-to-handler-not-answered r" + std::to_string(i); return; } continue; }
@@ -226,11 +232,6 @@ struct World {
         std::string sg = std::string("response-never-written-to-") + (i == c ? "closing-request" : c >= 0 ? "request-before-closing-request" : "keep-alive-request")
                        + (delays[i] ? "-handler-completes-after-callback" : "-handler-completes-in-callback");
         viol = sg + " r" + std::to_string(i) + " handler-delay=" + std::to_string(delays[i]) + (eof ? " (connection already closed by the server)" : ""); return; }
-    }
-    for (size_t i = 0; i < kinds.size(); i++) {
-      if (!sent[i] || (c >= 0 && (int)i > c)) continue;
-      bool got = false; for (int d : delivered) if (d == (int)i) got = true;
-      if (!got) { viol = "request-never-handed-to-handler r" + std::to_string(i); return; }
     }
     if (c >= 0 && (int)tags.size() > c && !eof) { viol = "connection-not-closed-after-the-response-to-the-closing-request"; return; }
   }
@@ -299,7 +300,7 @@ int main(int argc, char **argv) {
   ex.show = show_op;
   // signature = first token of the violation text; a child killed by the escaping std::stoi exception gets a readable name
   ex.sig = [](const std::string &v) {
-    if (v.compare(0, 6, "crash:") == 0 && v.find("uncaught-exception(stoi") != std::string::npos) return std::string("server-terminates-on-uncaught-stoi-exception-from-content-length");
+    if (v.compare(0, 6, "crash:") == 0 && v.find("uncaught-exception") != std::string::npos && v.find("stoi") != std::string::npos) return std::string("server-terminates-on-uncaught-stoi-exception-from-content-length");
     return v.substr(0, v.find(' ')); };
   ex.menu = [&](const std::vector<Op> &h) {
     std::vector<Op> m; int nreq = 0; bool glued_open = false, bad = false;
